@@ -270,6 +270,7 @@ class _Env:
         self.services = [self.dev.services[f"urn:schemas-upnp-org:service:S{i}:1"] for i in range(len(svcs))]
         self.names = [[v["name"] for v in s["vars"]] for s in svcs]
         self.pending = [[] for _ in svcs]     # per service: [(task, future)] oldest first
+        self.renewed = set()
 
     def tick(self):
         """exactly one iteration of the event loop"""
@@ -301,11 +302,41 @@ class _Env:
             return cls(status=500)
         return cls("scripted")
 
-    def start(self, v):
-        """-> observation of the start step"""
-        task = self.loop.create_task(self.eh.async_subscribe(self.services[v]))
+    def _old_subscription(self, v):
+        """establish (and let the publisher forget) a subscription of service v under a SID no event of the case
+        uses, so that the next SUBSCRIBE for v is the fall-back of a refused renewal"""
+        task0 = self.loop.create_task(self.eh.async_subscribe(self.services[v]))
         n0 = len(self.parked)
         self.tick()
+        if len(self.parked) != n0 + 1:
+            task0.cancel()
+            self.tick()
+            return False
+        _, _, fut = self.parked.pop()
+        fut.set_result((200, {"sid": f"uuid:previous-{v}", "timeout": "Second-1800"}, ""))
+        self.drain(task0)
+        return task0.done() and not task0.cancelled() and task0.exception() is None
+
+    def start(self, v, via_renewal=False):
+        """-> observation of the start step.  With via_renewal the SUBSCRIBE is the one async_resubscribe falls back to
+        after the publisher refused the renewal of an earlier subscription (412): the same call as far as the property
+        is concerned - events racing ITS response must not be lost either."""
+        if via_renewal and not self.pending[v] and v not in self.renewed and self._old_subscription(v):
+            self.renewed.add(v)
+            task = self.loop.create_task(self.eh.async_resubscribe(self.services[v]))
+            n0 = len(self.parked)
+            self.tick()
+            if len(self.parked) == n0 + 1 and self.parked[-1][1] == "SUBSCRIBE":
+                _, _, f0 = self.parked.pop()
+                f0.set_exception(self.X.UpnpResponseError(status=412))
+                for _ in range(10):
+                    if task.done() or len(self.parked) == n0 + 1:
+                        break
+                    self.tick()
+        else:
+            task = self.loop.create_task(self.eh.async_subscribe(self.services[v]))
+            n0 = len(self.parked)
+            self.tick()
         if task.done() or len(self.parked) != n0 + 1 or self.parked[-1][1] != "SUBSCRIBE":
             self.drain(task)
             for (_, _, f) in self.parked[n0:]:
@@ -598,6 +629,10 @@ class Plugin:
             cases.append(self._random_case(rng, False))
         for _ in range(n_wild):
             cases.append(self._random_case(rng, True))
+        # the same histories with every first SUBSCRIBE of a service issued by the renewal fall-back of async_resubscribe
+        base = list(cases)
+        for c in rng.sample(base, min(len(base), 300 if tier != "thorough" else 3000)):
+            cases.append({**c, "via_renewal": True})
         return cases
 
     # ------------------------------------------------------------------ implementation
@@ -639,12 +674,12 @@ class Plugin:
                         except Exception:  # noqa: BLE001
                             what = ["notify", "raise", "BadReturn"]
                 elif st[0] == "start":
-                    what = env.start(st[1])
+                    what = env.start(st[1], case.get("via_renewal", False))
                 else:
                     v, r = st[1], st[2]
                     what = None
                     if not env.pending[v]:
-                        w = env.start(v)
+                        w = env.start(v, case.get("via_renewal", False))
                         if w != ["started"]:
                             what = w
                     if what is None:
